@@ -140,3 +140,128 @@ pub fn c16(rng: &mut Rng, thorough: bool, _idx: u64) -> Spec {
     spec.oracles = vec!["c16_pause".into(), "liveness".into()];
     spec
 }
+
+/// C17: populations of idle, mid-transaction (shorter and longer than shutdown_timeout), admin
+/// and newly arriving clients; SIGINT, repeated SIGINT, admin SHUTDOWN, SIGTERM at PRNG times.
+pub fn c17(rng: &mut Rng, thorough: bool, _idx: u64) -> Spec {
+    let session = rng.chance(0.2);
+    let timeout = *rng.pick(&[300u64, 1000, 3000]);
+    let mut cfg = single_pool(if session { "session" } else { "transaction" }, 8, rng.range(0, 1) as usize);
+    cfg.set("shutdown_timeout", timeout);
+    cfg.set("connect_timeout", 60000);
+    let how = *rng.pick(&["INT", "INT", "INT2", "SHUTDOWN", "TERM"]);
+    let t_sig = rng.range(40, 200);
+    let mut clients = Vec::new();
+    let mut actions = Vec::new();
+    match how {
+        "INT" | "INT2" | "TERM" => {
+            actions.push(ActionSpec { at: When::AtMs { ms: t_sig }, act: Action::Signal { sig: if how == "TERM" { "TERM".into() } else { "INT".into() } } });
+            actions.push(ActionSpec { at: When::AtMs { ms: t_sig }, act: Action::Emit { ev: "sig".into() } });
+            if how == "INT2" {
+                actions.push(ActionSpec { at: When::AtMs { ms: t_sig + rng.range(10, timeout.saturating_sub(50).max(11)) }, act: Action::Signal { sig: "INT".into() } });
+            }
+        }
+        _ => {
+            let mut a = admin_client(400, "main", When::AtMs { ms: 0 }, &[]);
+            a.steps = vec![Step::Think { ms: t_sig }, q("SHUTDOWN".into(), 0), Step::Emit { ev: "sig".into() }, Step::Hold { until: None, max_ms: 600_000 }];
+            clients.push(a);
+        }
+    }
+    let mut id = 0u32;
+    let mut kinds = serde_json::Map::new();
+    // idle clients (connected, between transactions)
+    for _ in 0..rng.range(0, 3) {
+        id += 1;
+        let mut p = Prog::new(id);
+        p.new_txn();
+        let s = p.select(1, 0, "");
+        p.simple(s);
+        p.steps.push(Step::Hold { until: None, max_ms: 600_000 });
+        kinds.insert(id.to_string(), serde_json::json!("idle"));
+        clients.push(client(id, "app", "db", "apppw", rng.range(0, 30), p.steps));
+    }
+    // idle clients that never ran anything
+    for _ in 0..rng.range(0, 1) {
+        id += 1;
+        kinds.insert(id.to_string(), serde_json::json!("idle_fresh"));
+        clients.push(client(id, "app", "db", "apppw", rng.range(0, 30), vec![Step::Hold { until: None, max_ms: 600_000 }]));
+    }
+    // mid-transaction clients: the transaction straddles the signal
+    for _ in 0..rng.range(1, if thorough { 4 } else { 3 }) {
+        id += 1;
+        let long = rng.chance(0.3);
+        let mut p = Prog::new(id);
+        p.new_txn();
+        let t = p.tag();
+        p.simple(format!("BEGIN /* {} */", t));
+        let s = p.select(1, 0, "");
+        p.simple(s);
+        let start = rng.range(0, t_sig.saturating_sub(15));
+        // the transaction ends at about t_sig + d
+        let d = if long { timeout + rng.range(200, 800) } else { rng.range(5, timeout.saturating_sub(120).max(6)) };
+        p.think((t_sig - start) + d);
+        let s = p.select(2, 0, "");
+        p.simple(s);
+        let t = p.tag();
+        p.simple(format!("COMMIT /* {} */", t));
+        if rng.chance(0.5) {
+            // then stays idle: must be told to go away
+            p.steps.push(Step::Hold { until: None, max_ms: 600_000 });
+        } else {
+            p.steps.push(Step::Terminate);
+        }
+        kinds.insert(id.to_string(), serde_json::json!(if long { "mid_txn_long" } else { "mid_txn_short" }));
+        clients.push(client(id, "app", "db", "apppw", start, p.steps));
+    }
+    // clients that came and went before the signal, some of them abruptly, some after an
+    // SSLRequest that PgCat declines (the libpq sslmode=prefer dance)
+    for _ in 0..rng.range(0, 3) {
+        id += 1;
+        let mut p = Prog::new(id);
+        p.new_txn();
+        let s = p.select(1, 0, "");
+        p.simple(s);
+        if rng.chance(0.6) {
+            p.steps.push(Step::Drop { abort: rng.chance(0.5) });
+        } else {
+            p.steps.push(Step::Terminate);
+        }
+        kinds.insert(id.to_string(), serde_json::json!("early_leaver"));
+        let mut c = client(id, "app", "db", "apppw", rng.range(0, t_sig.saturating_sub(30)), p.steps);
+        c.ssl_probe = rng.chance(0.5);
+        clients.push(c);
+    }
+    for c in clients.iter_mut() {
+        if c.role == "worker" && rng.chance(0.3) {
+            c.ssl_probe = true;
+        }
+    }
+    // arrivals after the signal
+    for _ in 0..rng.range(1, 2) {
+        id += 1;
+        let mut p = Prog::new(id);
+        p.new_txn();
+        let s = p.select(1, 0, "");
+        p.simple(s);
+        p.steps.push(Step::Terminate);
+        let mut c = client(id, "app", "db", "apppw", 0, p.steps);
+        c.start = When::After { ev: "sig".into(), delay_ms: rng.range(1, 100) };
+        kinds.insert(id.to_string(), serde_json::json!("arrival"));
+        clients.push(c);
+    }
+    if rng.chance(0.6) {
+        let mut a = admin_client(450, "main", When::After { ev: "sig".into(), delay_ms: rng.range(1, 40) }, &["SHOW POOLS", "SHOW CLIENTS"]);
+        a.role = "admin".into();
+        kinds.insert("450".to_string(), serde_json::json!("admin_arrival"));
+        clients.push(a);
+    }
+    let net = if rng.chance(0.5) { net_calm() } else { NetSpec { latency_ms: (0, *rng.pick(&[0u64, 1, 3])), ..net_swarm(rng) } };
+    let mut spec = Spec { config_toml: cfg.render(), hosts: cfg.hosts(), net, clients, actions, end: EndSpec { deadline_ms: 700_000, calm_ms: 50 }, ..Default::default() };
+    spec.params = params_from(&cfg);
+    spec.params.insert("client_kinds".into(), serde_json::Value::Object(kinds));
+    spec.params.insert("shutdown_timeout".into(), serde_json::json!(timeout));
+    spec.params.insert("how".into(), serde_json::json!(how));
+    spec.family = format!("shutdown/{}/{}", how, if session { "session" } else { "transaction" });
+    spec.oracles = vec!["c17_shutdown".into()];
+    spec
+}
